@@ -4,7 +4,8 @@ CONSTANTS
   MaxQ = 2
   MaxSess = 2
   MaxLater = 1
-  Depth = 6
+  Depth = 5
+  Full = FALSE
 CONSTRAINT Bound
 VIEW View
 INVARIANT ReplyConservation
